@@ -303,12 +303,13 @@ func RunCLI(cli string, inv Invocation, inDir, outDir string, s Sched, tapeVals 
 		for _, line := range strings.Split(string(lb), "\n") {
 			var c simos.Call
 			if strings.HasPrefix(line, `{"i"`) && json.Unmarshal([]byte(line), &c) == nil {
+				if c.Idx == -1 && c.Op == "FAULT-FIRED" {
+					res.Fired = true
+					continue
+				}
 				res.Calls = append(res.Calls, c)
 				if c.Idx == s.FaultAt {
 					res.Reached = true
-					if c.Result == "CRASH" || strings.HasPrefix(c.Result, "err:") {
-						res.Fired = true
-					}
 				}
 			}
 		}
